@@ -9,11 +9,17 @@ backend := `mem` (memory.Storage) | `red` (redis.Storage over miniredis) | `hyr`
            `byt` (double answering []byte)
 ev    := `o:<conn>` open | `h:<conn>` control handshake, auth ok | `f:<conn>` control handshake, auth refused |
          `u:<conn>` tunnel-type handshake, auth ok | `v:<conn>` tunnel-type handshake, auth refused |
-         `b:<conn>` heartbeat | `c:<conn>` close | `t:<ms>` clock advance
+         `b:<conn>` heartbeat | `t:<ms>` clock advance |
+         the connection ends: `c:<conn>` CloseConnection called directly | `e:<conn>` adapter read loop ended
+         (BaseAdapter.cleanupConnection) | `d:<conn>` Disconnect command | `s:<conn>` heartbeat-timeout sweep |
+         `k:<conn>` KickOldControlConnection(client, conn) (duplicate-login eviction of the node's other connection) |
+         `x:<node>` session manager shutdown |
+         `q:<node>.<client>` FindClientNode starts on that node: its index read happens now | `r:<node>.<client>` it
+         continues: record read and answer (flag ok = it answered a connection)
 conn  := `<node>.<client>.<serial>`
-obs   := one token per event: `<ok|er>|<x>=<ans>/<route>,…(one per node)…;<x>=…`   (ok = the entry point returned nil)
+obs   := one token per event: `<ok|er>|<x>=<ans>/<route>,…(one per node)…;<x>=…`   (ok = the entry point returned nil; for `d:`/`s:`: the call closed the connection)
 ans   := `-` not connected | `inv` invalid client id | `bad` decode error | `<node>@<conn>`
-route := `L` local | `R<node>` forward | `N` not connected | `I` inconsistent
+route := `L` local | `R<node>` forward | `N` not connected | `I` inconsistent | `X` the asking node was shut down (not asked)
 -/
 namespace Tunnox.Drv.C08
 open Tunnox.C08
@@ -42,7 +48,20 @@ def parseEv (tok : String) : Option Ev :=
   | ["u", c] => (parseConn c).map (fun c => .hsTunnel c true)
   | ["v", c] => (parseConn c).map (fun c => .hsTunnel c false)
   | ["b", c] => (parseConn c).map .hb
-  | ["c", c] => (parseConn c).map .close
+  | ["c", c] => (parseConn c).map (fun c => .close c .direct)
+  | ["e", c] => (parseConn c).map (fun c => .close c .eof)
+  | ["d", c] => (parseConn c).map (fun c => .close c .disconnect)
+  | ["s", c] => (parseConn c).map (fun c => .close c .sweep)
+  | ["k", c] => (parseConn c).map .kick
+  | ["x", n] => n.toNat?.map .shutdown
+  | ["q", a] =>
+    match a.splitOn "." with
+    | [j, x] => do let j ← j.toNat?; let x ← x.toNat?; pure (.lookBegin j x)
+    | _ => none
+  | ["r", a] =>
+    match a.splitOn "." with
+    | [j, x] => do let j ← j.toNat?; let x ← x.toNat?; pure (.lookEnd j x)
+    | _ => none
   | ["t", d] => d.toNat?.map .tick
   | _ => none
 
@@ -89,6 +108,7 @@ def renderRoute : Route → String
   | .cross n => s!"R{n}"
   | .none_ => "N"
   | .incons => "I"
+  | .down => "X"
 
 def renderView (v : List (Look × Route)) : String :=
   ",".intercalate (v.map (fun p => renderLook p.1 ++ "/" ++ renderRoute p.2))
@@ -112,6 +132,7 @@ def parseRoute (s : String) : Option Route :=
   if s == "L" then some .loc
   else if s == "N" then some .none_
   else if s == "I" then some .incons
+  else if s == "X" then some .down
   else
     match s.toList with
     | 'R' :: r => (String.ofList r).toNat?.map .cross
